@@ -1,7 +1,7 @@
 (* Proof scripts of the statements of Props/C20.v and Props/C21.v that need more than one step
    (Props files only contain statements closed by [exact]). *)
 From TxV Require Import Core.Base Model.PegSyntax Model.Peg Model.Build Model.KwDefs Gen.SrcKw Model.Kw
-     Proofs.PegCongr Proofs.PegInv Proofs.KwProofs Proofs.KwCheckProofs Proofs.KwInv Proofs.KwBuild Proofs.KwModel Proofs.KwWitness.
+     Proofs.PegCongr Proofs.PegInv Proofs.KwProofs Proofs.KwCheckProofs Proofs.KwInv Proofs.KwBuild Proofs.KwModel Proofs.KwModel2 Proofs.KwWitness.
 
 Lemma stmt_C20_compile : forall wordc digitc autokwd t pat,
   spec_icase (compile_lit wordc digitc autokwd true t) = true /\
@@ -182,4 +182,56 @@ Proof.
                                      cbn in Hk, Hk'; try discriminate; injection Hk as _ <-; reflexivity|]).
     vm_compute in Hn. destruct nid; discriminate.
   - eexists. eexists. split; [vm_compute; reflexivity|]. split; [vm_compute; reflexivity|]. split; vm_compute; reflexivity.
+Qed.
+
+(* ---- `Model: k=Kw n=ID; Kw: 'foo'|'bar';` with ignore_case, plain / autokwd, on "FOO x": the extent of the
+   known finding icase-keyword-spelling - the two object graphs are related up to case, and differ *)
+Definition g_kwv_plain : grammar := (mkGrammar [mkNode KSeq [1;8] None false [77;111;100;101;108]%N true false None None;
+  mkNode KSeq [2;6] None false [77;111;100;101;108]%N true false None None;
+  mkNode KSeq [3] None false [95;95;97;115;103;110;95;112;108;97;105;110]%N true false None None;
+  mkNode KChoice [4;5] None false [75;119]%N true false None None;
+  mkNode (KStr [102;111;111]%N (Some 0)) [] None false []%N false false None None;
+  mkNode (KStr [98;97;114]%N (Some 1)) [] None false []%N false false None None;
+  mkNode KSeq [7] None false [95;95;97;115;103;110;95;112;108;97;105;110]%N true false None None;
+  mkNode (KRegex 2) [] None false [73;68]%N true false None None;
+  mkNode KEOF [] None false [69;79;70]%N false false None None] 0 None).
+Definition g_kwv_kw : grammar := (mkGrammar [mkNode KSeq [1;8] None false [77;111;100;101;108]%N true false None None;
+  mkNode KSeq [2;6] None false [77;111;100;101;108]%N true false None None;
+  mkNode KSeq [3] None false [95;95;97;115;103;110;95;112;108;97;105;110]%N true false None None;
+  mkNode KChoice [4;5] None false [75;119]%N true false None None;
+  mkNode (KRegex 0) [] None false []%N false false None None;
+  mkNode (KRegex 1) [] None false []%N false false None None;
+  mkNode KSeq [7] None false [95;95;97;115;103;110;95;112;108;97;105;110]%N true false None None;
+  mkNode (KRegex 2) [] None false [73;68]%N true false None None;
+  mkNode KEOF [] None false [69;79;70]%N false false None None] 0 None).
+Definition tbl_kwv := [((0,0),3);((2,0),3);((2,1),2);((2,2),1);((2,4),1)].
+Definition mm_kwv : list ninfo := [IOther;
+  IRule RCommon [77;111;100;101;108]%N [mkAttr [107]%N M1 true false [75;119]%N false;mkAttr [110]%N M1 true false [73;68]%N false];
+  IAsgn [107]%N OpPlain;
+  IRule RMatch [75;119]%N [];
+  ITerm []%N 0;
+  ITerm []%N 0;
+  IAsgn [110]%N OpPlain;
+  ITerm [73;68]%N 0;
+  ITerm [69;79;70]%N 0].
+Definition in_kwv : list N := [70;79;79;32;120]%N.     (* "FOO x" *)
+
+Lemma stmt_C21_model_objects_related_nonvacuous :
+  kw_case_ok ascii_word ascii_digit ascii_lower in_kwv tbl_kwv tbl_kwv g_kwv_plain g_kwv_kw = true /\
+  no_glue_ok ascii_word ascii_digit ascii_lower in_kwv g_kwv_plain = true /\
+  exists r v v',
+    run g_kwv_plain cfg_default (orc_of tbl_kwv) false 50 in_kwv = Parsed r /\
+    build g_kwv_plain mm_kwv in_kwv no_grp true true r = BOk v /\
+    build g_kwv_kw mm_kwv in_kwv no_grp true true (fr (kw_supf g_kwv_plain g_kwv_kw) r) = BOk v' /\
+    vrel ascii_lower v v' /\ v' <> v /\
+    v = VObj [77;111;100;101;108]%N 0 5
+             [([107]%N, VConv [75;119]%N (VTerm []%N [102;111;111]%N)); ([110]%N, VTerm [73;68]%N [120]%N)] /\
+    v' = VObj [77;111;100;101;108]%N 0 5
+             [([107]%N, VConv [75;119]%N (VTerm []%N [70;79;79]%N)); ([110]%N, VTerm [73;68]%N [120]%N)].
+Proof.
+  split; [vm_compute; reflexivity|]. split; [vm_compute; reflexivity|].
+  eexists. eexists. eexists. split; [vm_compute; reflexivity|]. split; [vm_compute; reflexivity|].
+  split; [vm_compute; reflexivity|]. split.
+  - cbn. repeat split; try reflexivity; first [left; reflexivity | right; split; reflexivity].
+  - split; [discriminate|]. split; reflexivity.
 Qed.
